@@ -131,6 +131,11 @@ def run(tier):
                               'spec': f'PegMachine (flavour {backend}, Cfg.act = {act})'}, key='mach' + c['ebnf'] + backend + act)
     ck.count(evaluations=nmach, traces=nmach)
     ck.notes['machine_cases'] = nmach
+    # history counters on the machine (spec/PegMachineObs.tla): the action of a (position, rule) never runs more often than its body is
+    # evaluated, a @nomemo rule evaluates on every entry, a memo hit needs an earlier evaluation - under every memo schedule
+    from ..pegcheck import observer_check
+    obs_items = [dict(it, cfg={'nameguard': False}) for it in items if it['label'] in ('plain', 'nomemo', 'leftrec')]
+    observer_check(ck, obs_items[ck.seed % 2::2] if tier == 'quick' else obs_items, 'C06 actions and @nomemo')
     seen = set()
     for ci, (c, im) in enumerate(zip(cases, impl)):
         base = ci - (ci % 2)
